@@ -710,7 +710,13 @@ func (g *gen) method(names map[string]bool) *Method {
 	segs := []string{"/" + strings.ToLower(name)}
 	// path parameters: scalar string-ish request fields
 	for _, f := range m.Request {
-		if (f.Type.Kind == "string" || f.Type.Kind == "key") && rapid.Bool().Draw(t, "inpath") {
+		pathable := false
+		switch f.Type.Kind {
+		case "string", "key", "integer", "bool", "date", "enum":
+			pathable = true
+		}
+		if pathable && rapid.Bool().Draw(t, "inpath") {
+			g.cls("path-parameter:" + f.Type.Kind)
 			segs = append(segs, "/:"+f.Name)
 			if rapid.Bool().Draw(t, "pathsuffix") {
 				segs = append(segs, "/"+rapid.SampledFrom([]string{"detail", "items", "x"}).Draw(t, "seg"))
@@ -733,6 +739,10 @@ func (g *gen) service() *Service {
 	s := &Service{Name: g.typeName(g.curPkg.Name + ".service")}
 	if rapid.Bool().Draw(t, "basepath") {
 		s.BasePath = "/" + pkgWordOf(g.curPkg.Name) + "/v1"
+	}
+	if rapid.IntRange(0, 3).Draw(t, "svcoptions") == 0 {
+		s.Audience = []string{"internal"}
+		g.cls("service-options")
 	}
 	names := map[string]bool{}
 	n := rapid.IntRange(1, 3).Draw(t, "nmethods")
@@ -849,6 +859,10 @@ func (g *gen) entity() *Entity {
 		m.Request = req
 		m.HTTPPath = "/:" + pk.Name + "/" + strings.ToLower(m.Name)
 		cmd.Methods = []*Method{m}
+		if rapid.IntRange(0, 2).Draw(t, "cmdoptions") == 0 {
+			cmd.Audience = []string{"internal", "admin"}
+			g.cls("command-options")
+		}
 		e.Commands = append(e.Commands, cmd)
 	}
 	if rapid.IntRange(0, 2).Draw(t, "query") == 0 {
